@@ -291,10 +291,14 @@ def gen_spec(r, big=False, pkg=None, fnames=None, with_dep=None):
         f = {"name": fn, "enums": [], "messages": []}
         for _ in range(r.randint(0, 2)):
             cands = [n for n in TOP_NAMES if n not in used_top]
+            if len(cands) < 3:
+                break
             n = r.pick(cands)
             used_top.add(n)
             f["enums"].append(gen_enum(r, n))
-        for _ in range(r.randint(1, 4 if big else 3)):
+        for k in range(r.randint(1, 4 if big else 3)):
+            if len([n for n in TOP_NAMES if n not in used_top]) < (2 if k else 1):
+                break
             f["messages"].append(gen_skeleton(r, 1, used_top, big))
         files.append(f)
     spec = {"package": pkg, "files": files}
@@ -783,6 +787,13 @@ def has_unknown(codec, full, b64):
     return a != m.SerializeToString(deterministic=True)
 
 
+class _NoLiteral(Exception):
+    pass
+
+
+STRUCT_TYPES = ("google.protobuf.Value", "google.protobuf.ListValue", "google.protobuf.Struct")
+
+
 def literal_of(spec, dyn):
     """the set fields of a dynamic message (INPUT descriptors) as a literal a caller of the emitted library would
     write: keyed by the python attribute (proto name, plus `_` iff reserved), nested messages of proto-plus packages as
@@ -808,6 +819,12 @@ def literal_of(spec, dyn):
         return {"i": int(v)}
     for fd, val in dyn.ListFields():
         key = expected_attr(fd.name)
+        if fd.label == fd.LABEL_REPEATED and fd.message_type is not None:
+            inner = fd.message_type.fields_by_name["value"].message_type if fd.message_type.GetOptions().map_entry else fd.message_type
+            if inner is not None and inner.full_name in STRUCT_TYPES:
+                # proto-plus reads a python list/dict given for a struct.proto type as ONE Value/ListValue/Struct, so a
+                # repeated or map field of such a type cannot be written as a literal (run-time library behaviour)
+                raise _NoLiteral()
         if fd.message_type is not None and fd.message_type.GetOptions().map_entry:
             kf, vf = fd.message_type.fields_by_name["key"], fd.message_type.fields_by_name["value"]
             out[key] = {"map": [[scalar(kf, k), scalar(vf, val[k])] for k in val]}
@@ -893,16 +910,22 @@ def run_spec(ctx, r, spec, label, nvals=None):
             dyns.append(("zeros", z))
         for kind, dyn in dyns:
             data = dyn.SerializeToString(deterministic=True)
+            try:
+                lit = literal_of(spec, dyn)
+            except _NoLiteral:
+                lit = None
+                ctx.count("valuation", "no-literal (repeated/map of struct.proto types)")
             trips.append({"full": full, "kind": kind, "b64": base64.b64encode(data).decode(),
                           "json": json_format.MessageToJson(dyn, descriptor_pool=codec.pool), "value": codec.decode(full, data),
-                          "literal": literal_of(spec, dyn),
+                          "literal": lit,
                           "want_json": json_format.MessageToDict(dyn, always_print_fields_with_no_presence=True,
                                                                  use_integers_for_enums=True, descriptor_pool=codec.pool)})
     root = genrun.materialise(dep_res) if dep_res is not None else None
     root = genrun.materialise(res, root)
     try:
         out = libhost.run(root, [{"op": "types_session", "package": pypkg,
-                                  "roundtrips": [{k: t[k] for k in ("full", "b64", "json", "literal")} for t in trips]}], timeout=600)[0]
+                                  "roundtrips": [{k: t[k] for k in ("full", "b64", "json", "literal") if t[k] is not None}
+                                                 for t in trips]}], timeout=600)[0]
     finally:
         genrun.cleanup(root)
     if "messages" not in out:
@@ -1456,6 +1479,8 @@ def run(ctx):
                "the name <module>_pb2 of an imported dependency module, or the name of a Python builtin used as a bare class name")
     ctx.assume("one proto package per target library (no sub-packages: their `marshal=` branch is reached only by the excluded point "
                "dependency-package-with-api-prefix); dependency packages outside google.* are proto-plus packages listed in proto-plus-deps")
+    ctx.assume("valuations with a repeated or map field of google.protobuf.Value/ListValue/Struct are not written as literal dicts "
+               "(proto-plus reads a list/dict given for those types as one value); they still go through bytes and JSON")
     ctx.assume("no field is named <reserved word>_ next to a field named <reserved word> (protoc rejects the JSON-name conflict)")
     t2_tables(ctx)
     run_excluded(ctx)
